@@ -364,6 +364,7 @@ type Contract struct {
 	Requires []*Clause
 	Ensures  []*Clause
 	HasMod   bool
+	ModInferred bool // frame = syntactic write-set of the body (sound by construction, not an obligation)
 	Modifies []*SExpr // each a designator expression; empty + HasMod => nothing
 	LoopInv  map[int][]*Clause
 	LoopMod  map[int][]*SExpr
@@ -601,6 +602,10 @@ func ParseSpecFile(path, pkgPath string) (*SpecFile, error) {
 		case "modifies":
 			if cur == nil {
 				return nil, fmt.Errorf("%s: modifies outside func", where)
+			}
+			if rest == "inferred" {
+				cur.ModInferred = true
+				break
 			}
 			cur.HasMod = true
 			if rest == "nothing" {
